@@ -185,8 +185,28 @@ pub fn run_case(seed: u64, stream: u64, index: u64, cfg: &HistCfg, md: Option<&m
         while k < rest.len() {
             w.step += 1;
             let m = rest[k];
+            if delivered[i].contains(&m) { k += 1; continue; }   // arrived through a state relay in the meantime
             let v2 = r.chance(1, 3);
             let dup = r.chance(1, 8);
+            // occasionally another replica relays its whole state (what it integrated, what it has stashed and its stashed
+            // delete set) as one update: full, or as the difference to the receiver's state vector, v1 or v2
+            if nrep > 1 && r.chance(1, 5) {
+                // prefer a relay that is itself waiting for something: its stash and stashed delete set travel with its state
+                let waiting: Vec<usize> = (0..nrep).filter(|&j| j != i && { let t = w.reps[j].doc.transact(); t.has_missing_updates() }).collect();
+                let j = if !waiting.is_empty() && r.chance(3, 4) { *r.pick(&waiting) } else { let mut j = r.below(nrep as u64 - 1) as usize; if j >= i { j += 1; } j };
+                let full = r.chance(1, 2);
+                let sv = if full { yrs::StateVector::default() } else { w.reps[i].doc.transact().state_vector() };
+                let bytes = { let t = w.reps[j].doc.transact(); if v2 { t.encode_state_as_update_v2(&sv) } else { t.encode_state_as_update_v1(&sv) } };
+                w.out.script.push(format!("r{} <- state of r{} ({}, {})", i, j, if full { "full" } else { "diff" }, if v2 { "v2" } else { "v1" }));
+                let res = if v2 { w.reps[i].apply_v2(&bytes) } else { w.reps[i].apply_v1(&bytes) };
+                if let Err(e) = res { w.out.failures.push(json!({"property": "C09", "class": "emitted-update-rejected", "step": w.step, "error": e, "v2": v2, "what": "state relay"})); }
+                w.reps[i].drain1(); w.reps[i].drain2();
+                let gained: Vec<usize> = delivered[j].iter().filter(|x| !delivered[i].contains(x)).cloned().collect();
+                for g in gained { let b = msgs[g].v1.clone(); w.model_apply(i, &b); delivered[i].insert(g); }
+                w.check_state(i, "state relay");
+                *w.out.stats.entry("state_relays".into()).or_insert(0) += 1;
+                continue;
+            }
             // occasionally relay two messages as one merged update
             if k + 1 < rest.len() && r.chance(1, 6) {
                 let m2 = rest[k + 1];
@@ -197,6 +217,7 @@ pub fn run_case(seed: u64, stream: u64, index: u64, cfg: &HistCfg, md: Option<&m
                         if let Err(e) = w.reps[i].apply_v1(&bytes) { w.out.failures.push(json!({"property": "C08", "class": "merged-update-rejected", "error": e})); }
                         let (a, b) = (msgs[m].v1.clone(), msgs[m2].v1.clone());
                         w.model_apply(i, &a); w.model_apply(i, &b);
+                        delivered[i].insert(m); delivered[i].insert(m2);
                         w.reps[i].drain1(); w.reps[i].drain2();
                         w.check_state(i, "merged delivery");
                         *w.out.stats.entry("merged_deliveries".into()).or_insert(0) += 1;
@@ -214,6 +235,7 @@ pub fn run_case(seed: u64, stream: u64, index: u64, cfg: &HistCfg, md: Option<&m
             w.reps[i].drain1(); w.reps[i].drain2();
             let bytes = msgs[m].v1.clone();
             w.model_apply(i, &bytes);
+            delivered[i].insert(m);
             w.check_state(i, "late delivery");
             k += 1;
         }
